@@ -70,5 +70,8 @@ KeptCandidates(S) == { p \in S : \A q \in S : ~Older(q, p) }
 Targeted(s, d, r, role) ==
     { n \in NodeNames(s) : Fits(s, n, r.tmpl) /\ (role = "active" => n \notin CNodes(d)) /\ (role = "canary" => n \in CNodes(d)) }
 
+\* an ExtendedDaemonsetSetting selects the nodes whose group label is one of the groups it names (x.sels; "" / <<>> = unusable selector)
+SetMatches(s, x, n) == x.sel # "" /\ HasNode(s, n) /\ NodeOf(s, n).slabel \in SeqToSet(x.sels)
+
 Available(p) == p.ready
 =============================================================================
